@@ -1,9 +1,13 @@
 package main
 
 import (
+	"crypto/tls"
 	"fmt"
+	"io"
 	"net/http"
+	"path/filepath"
 	"strings"
+	"time"
 
 	"github.com/0xReLogic/Helios/internal/config"
 	"github.com/0xReLogic/Helios/internal/plugins"
@@ -114,6 +118,13 @@ func c14Exchanges(e *vh.Env, c c14Case) []c14Ex {
 			mk(fmt.Sprintf("upload %d chunked=%v PUT 201", n, ch), "PUT", n, ch, 201, nil, -1, false, nil)
 		}
 	}
+	for _, m := range []string{"GET", "DELETE", "OPTIONS", "PATCH"} {
+		for _, n := range []int{L1, L1 + 1, 10 * L1} {
+			for _, ch := range []bool{false, true} {
+				mk(fmt.Sprintf("%s with a %d byte body chunked=%v", m, n, ch), m, n, ch, 200, []int{3}, -1, false, nil)
+			}
+		}
+	}
 	// response side: sizes and partitions
 	for _, n := range []int{0, L2 - 1, L2, L2 + 1, 2 * L2, 10 * L2} {
 		if n < 0 {
@@ -171,6 +182,11 @@ func c14Exchanges(e *vh.Env, c c14Case) []c14Ex {
 		}
 		mk(fmt.Sprintf("HEAD status %d", st), "HEAD", 0, false, st, nil, -1, false, loc)
 	}
+	// bodiless responses that declare a length above the response limit: nothing is sent, so nothing may be refused
+	big := fmt.Sprint(10*L2 + 5)
+	mk("HEAD with Content-Length above the limit", "HEAD", 0, false, 200, nil, -1, false, [][2]string{{"Content-Length", big}})
+	mk("HEAD 404 with Content-Length above the limit", "HEAD", 0, false, 404, nil, -1, false, [][2]string{{"Content-Length", big}})
+	mk("304 with Content-Length above the limit", "GET", 0, false, 304, nil, -1, false, [][2]string{{"Content-Length", big}, {"ETag", `"e"`}})
 	mk("interim 103 then 204", "GET", 0, false, 204, nil, -1, false, nil)
 	xs[len(xs)-1].Script.Interim = []vh.Interim{{Code: 103, Headers: [][2]string{{"Link", "</x>"}}}}
 	mk("interim 103 then 404 body", "GET", 0, false, 404, []int{1}, -1, false, nil)
@@ -353,6 +369,114 @@ func init() {
 				if xi == 40 && c.Batch == 0 && c.Setup == "A" && c.L1 == 2 {
 					o.Sample(map[string]any{"part": "differential", "case": c, "exchange": x, "without_plugin": map[string]any{"status": pr.Status, "body_len": pr.BodyLen}, "with_plugin": map[string]any{"status": lr.Status, "body_len": lr.BodyLen}})
 				}
+			}
+		})
+}
+
+// ---- HTTP/2 front end (TLS): uploads without a declared length arrive as DATA frames, not as chunked encoding
+
+type c14H2 struct {
+	L1    int    `json:"max_request_body"`
+	Chain string `json:"chain"`
+	Strat string `json:"strategy"`
+}
+
+type unknownLen struct{ r *strings.Reader }
+
+func (u unknownLen) Read(p []byte) (int, error) { return u.r.Read(p) }
+
+func init() {
+	vh.AddPart("C14", "http2", "plain", vh.Opts{Shards: 4, Procs: 4, TimeoutS: 300},
+		func(e *vh.Env) []c14H2 {
+			var cs []c14H2
+			for i, l := range []int{1, 7, 4096, 100000} {
+				for j, ch := range []string{"S", "LS", "HSL"} {
+					cs = append(cs, c14H2{l, ch, allStrategies[(i+j)%5]})
+				}
+			}
+			return cs
+		},
+		func(e *vh.Env, c c14H2, o *vh.Out) {
+			o.Need("h2_exchanges", "h2_over_limit_cut", "h2_within_limit_ok")
+			be := vh.NewBackend("b0")
+			defer be.Close()
+			cfg := baseConfig(c.Strat, []*vh.Backend{be})
+			cfg.Plugins = c14Chain(c.Chain, c.L1, 1<<20, true)
+			cfg.Server.TLS = config.TLSConfig{Enabled: true, CertFile: filepath.Join(e.RepoDir, "certs", "cert.pem"), KeyFile: filepath.Join(e.RepoDir, "certs", "key.pem")}
+			sys, err := startSys(cfg, []*vh.Backend{be}, true)
+			if err != nil {
+				o.Inconcl("startSys: %v", err)
+				return
+			}
+			defer sys.Close()
+			cl := &http.Client{Timeout: 20 * time.Second, Transport: &http.Transport{TLSClientConfig: &tls.Config{InsecureSkipVerify: true}, ForceAttemptHTTP2: true}}
+			for _, n := range []int{0, c.L1 - 1, c.L1, c.L1 + 1, 3*c.L1 + 1, 10 * c.L1} {
+				if n < 0 {
+					continue
+				}
+				for _, declared := range []bool{true, false} {
+					for _, method := range []string{"POST", "PUT", "DELETE"} {
+						body := strings.Repeat("z", n)
+						var rd io.Reader = strings.NewReader(body)
+						if !declared {
+							rd = unknownLen{strings.NewReader(body)}
+						}
+						be.Reset()
+						xid := fmt.Sprintf("h2-%d-%v-%s", n, declared, method)
+						req, _ := http.NewRequest(method, "https://"+sys.Addr+"/h2", rd)
+						req.Header.Set(vh.XIDHeader, xid)
+						resp, err := cl.Do(req)
+						o.Eval(1)
+						o.Obs("h2_exchanges", 1)
+						o.Distinct(fmt.Sprintf("%v|%s", c, xid))
+						ctx := fmt.Sprintf("[http2 chain=%q limit=%d] %s upload of %d bytes declared=%v", c.Chain, c.L1, method, n, declared)
+						status, proto := 0, ""
+						if err == nil {
+							status, proto = resp.StatusCode, resp.Proto
+							io.Copy(io.Discard, resp.Body)
+							resp.Body.Close()
+							if proto != "HTTP/2.0" {
+								o.Inconcl("%s: negotiated %s instead of HTTP/2", ctx, proto)
+								continue
+							}
+						}
+						vh.Settle()
+						var arr *vh.Arrival
+						for _, a := range be.Arrivals() {
+							if a.XID == xid {
+								a := a
+								arr = &a
+							}
+						}
+						if arr != nil && arr.BodyLen > c.L1 {
+							o.Viol("C14|h2|request-body-over-limit", fmt.Sprintf("%s: the backend received %d body bytes", ctx, arr.BodyLen), nil)
+							return
+						}
+						switch {
+						case n > c.L1 && declared && n > 0:
+							if status != 413 || arr != nil {
+								o.Viol("C14|h2|declared-too-large", fmt.Sprintf("%s: status %d, reached backend=%v", ctx, status, arr != nil), nil)
+								return
+							}
+							o.Obs("h2_over_limit_cut", 1)
+						case n > c.L1:
+							o.Obs("h2_over_limit_cut", 1)
+						default:
+							if err != nil || status != 200 || arr == nil || arr.BodyLen != n {
+								got := -1
+								if arr != nil {
+									got = arr.BodyLen
+								}
+								o.Viol("C14|h2|within-limit-changed", fmt.Sprintf("%s: err=%v status=%d backend got %d bytes", ctx, err, status, got), nil)
+								return
+							}
+							o.Obs("h2_within_limit_ok", 1)
+						}
+					}
+				}
+			}
+			if c.L1 == 7 && c.Chain == "S" {
+				o.Sample(map[string]any{"part": "http2", "case": c, "uploads": "0, L-1, L, L+1, 3L+1, 10L bytes, with and without a declared length, POST/PUT/DELETE over HTTP/2 (TLS, repository test certificate)"})
 			}
 		})
 }
